@@ -95,6 +95,9 @@ pub enum Prog {
     StopAwaitJoin,
     /// an interval of period 1 ticks three times within three periods
     Ticks,
+    /// the same with timers of half a millisecond: an interval that ticks three times, a one-shot
+    /// after it (no runtime's timer fires early or turns a short wait into none)
+    SubMsTicks,
     /// call, then let the last handle go: the actor stops gracefully
     CallDropAll,
     /// a handler panics; then await the address and join
@@ -124,7 +127,8 @@ pub enum Prog {
     OwnerScript(u8),
 }
 
-pub const PROGS: [Prog; 16] = [
+pub const PROGS: [Prog; 17] = [
+    Prog::SubMsTicks,
     Prog::Call,
     Prog::DropOthersCall,
     Prog::DetachCall,
@@ -213,7 +217,7 @@ fn ops_for(prog: Prog, owning: bool) -> Vec<Op> {
                 vec![Op::Call(t, 1), Op::Clone(H::Addr(0)), Op::Stop(H::Addr(0)), Op::Await(H::Addr(1))]
             }
         }
-        Prog::Ticks => vec![Op::Sleep(4), Op::Call(t, 1)],
+        Prog::Ticks | Prog::SubMsTicks => vec![Op::Sleep(4), Op::Call(t, 1)],
         Prog::CallDropAll => vec![Op::Call(t, 1)],
         Prog::AbandonJoinDetachCall => {
             if owning {
@@ -332,6 +336,10 @@ impl Scene for S {
         if self.prog == Prog::Ticks {
             r.started_actions.push(Action::Interval { timer: 1, period: 1 });
         }
+        if self.prog == Prog::SubMsTicks {
+            r.started_actions.push(Action::Interval { timer: 1, period: 1 });
+            r.started_actions.push(Action::DelayedSend { timer: 2, delay: 1 });
+        }
         r.work.push((66, crate::world::Work { panic: true, ..Default::default() }));
         vec![r]
     }
@@ -342,7 +350,13 @@ impl Scene for S {
     }
 
     fn setup(&self, exec: &Exec) {
-        W.with(|w| w.borrow_mut().default_role[0] = 0);
+        W.with(|w| {
+            let mut w = w.borrow_mut();
+            w.default_role[0] = 0;
+            if self.prog == Prog::SubMsTicks {
+                w.tick_us = 500;
+            }
+        });
         STREAM.with(|s| *s.borrow_mut() = None);
         if matches!(self.entry, Entry::BuildRegister | Entry::AddrRegister | Entry::FromRegistry | Entry::Setup) {
             let (entry, prog) = (self.entry, self.prog);
@@ -409,7 +423,7 @@ impl Scene for S {
                 Prog::DropOthersCall => o.i == 3,
                 Prog::DetachCall => (o.i == 2 && an.ops.len() > 3) || (o.i == 1 && an.ops.len() <= 3),
                 Prog::StopAwaitJoin => o.i == 0,
-                Prog::Ticks => o.i == 1,
+                Prog::Ticks | Prog::SubMsTicks => o.i == 1,
                 Prog::CallDropAll | Prog::PanicAwaitJoin => o.i == 0,
                 Prog::AbandonJoinDetachCall | Prog::AbandonJoinDropOwnerCall | Prog::PendingJoinDetachCall | Prog::InFlightJoinDetachCall | Prog::UnwindDropOwnerCall => true,
                 Prog::JoinStartDropOwnerStopAwait | Prog::ConsumeSyncAwait | Prog::JoinStartDetachStopAwait => true,
@@ -443,8 +457,29 @@ impl Scene for S {
                 });
             }
         }
-        if self.prog == Prog::Ticks {
-            let ticks = an.enters.iter().filter(|e| matches!(e.cb, Cb::Tick { .. }) && e.time <= 3).count();
+        if t.res.end == crate::vexec::EndReason::Spin {
+            out.push(Violation {
+                clause: "operations-resolve",
+                key: format!("C18/{RUNTIME}/task-never-yields/entry={:?}/program={:?}", self.entry, self.prog),
+                detail: format!("on {RUNTIME}: a task of the library went through thousands of zero-length timers without yielding once - the thread that runs it is lost and the program hangs"),
+            });
+        }
+        if self.prog == Prog::SubMsTicks {
+            // half a millisecond is not nothing: no timer fires at the instant it was registered
+            let registered = an.enters.iter().find(|s| s.a == 0 && s.cb == Cb::Started).map(|s| s.time).unwrap_or(0);
+            for e in an.enters.iter().filter(|e| matches!(e.cb, Cb::Tick { .. })) {
+                crate::check::oblige("timers-work");
+                if e.time <= registered {
+                    out.push(Violation {
+                        clause: "timers-work",
+                        key: format!("C18/{RUNTIME}/short-wait-became-none/entry={:?}", self.entry),
+                        detail: format!("on {RUNTIME}: {:?} was handled at t={}, the instant its timer of half a millisecond was registered", e.cb, e.time),
+                    });
+                }
+            }
+        }
+        if matches!(self.prog, Prog::Ticks | Prog::SubMsTicks) {
+            let ticks = an.enters.iter().filter(|e| matches!(e.cb, Cb::Tick { timer: 1, .. }) && e.time <= 3).count();
             if ticks != 3 {
                 out.push(Violation {
                     clause: "timers-work",
@@ -495,7 +530,9 @@ fn cases(tier: Tier) -> Vec<Case> {
             v.push(Case {
                 desc: format!("runtime-equivalence entry={entry:?} program={prog:?}"),
                 exec: ExecCfg {
-                    horizon: if prog == Prog::Ticks { 4 } else { 25 },
+                    horizon: if matches!(prog, Prog::Ticks | Prog::SubMsTicks) { 4 } else { 25 },
+                    spin_is_outcome: true,
+                    real_crosscheck: prog != Prog::SubMsTicks,
                     // programs that poll a join future exactly once see whether the handle's lock suspends
                     lock_yield_is_choice: matches!(prog, Prog::InFlightJoinDetachCall | Prog::InFlightJoinSecondJoin) || matches!(prog, Prog::OwnerScript(k) if crate::props::c17::owner_scripts()[k as usize].0.contains("polled")),
                     ..ExecCfg::default()
